@@ -27,7 +27,7 @@ type Hello struct {
 	MinVer uint16
 	MaxVer uint16
 	Mutate func(*utls.ClientHelloSpec)
-	Manual bool // bytes written by the client are staged; the harness delivers them (Raw.Deliver)
+	Manual bool                      // bytes written by the client are staged; the harness delivers them (Raw.Deliver)
 	Prep   func(cl, sv *memnet.Conn) // runs on both ends before the proxy can accept the connection
 }
 
@@ -419,7 +419,7 @@ func (k *H2Collector) Add(dec *h2wire.Decoder, fs []h2wire.Frame) {
 // Req is a request a harness client sends.
 type Req struct {
 	Method, Path, Host string
-	Scheme             string // h2 only; default "https"
+	Scheme             string      // h2 only; default "https"
 	Lines              [][2]string // extra header lines in order (names as written; lower-cased for h2)
 	Body               []byte
 }
